@@ -7,7 +7,13 @@
 -/
 import Bkl
 import BklProofs.Lemmas.Output
+import BklProofs.Lemmas.ToolsCliProofs
 namespace Bkl
+
+-- `BklProofs.Lemmas.ToolsCliProofs` (needed for the tool-main theorems at the end of this file)
+-- brings in the simp lemma `R_pure_eq` of Lemmas/Files.lean; it is switched off here so that the
+-- `simp` calls of the theorems below behave exactly as before.
+attribute [-simp] R_pure_eq
 
 /-! ## Specification functions -/
 
@@ -386,5 +392,188 @@ theorem C17_agrees_with_validate (v : Val) (h : keysPlain v = true) :
 
 example : keysPlain (.map [("a", .str "$required"), ("b", .list [.str "$$x", .int 1])]) = true := by
   decide
+
+/-! ## The tool main: cmd/bklr/main.go (`Bkl.bklrRun`, Bkl/ToolsCli.lean)
+
+  Helper lemmas are in BklProofs/Lemmas/ToolsCliProofs.lean (prefix `tc_`); the sample file
+  system `tc_toolFS` holds /w/r.yaml with the document `tc_req`
+  (`{a: $required, b: 1, c: [$required, 2]}`). -/
+
+/-- bklr's format rule differs from bkld/bkli (`C15_tool_format_choice`): the input's format is
+    replaced by the extension of `-o` whenever `-o` is given — also by an empty one — and then
+    by `-f` whenever `-f` is given — also by an empty one.  The chosen format must be supported. -/
+theorem C17_bklr_format_choice (fs : FS) (cwd : Comps) (opts : ToolOpts) (path : String)
+    (data : Val) (f : String) (hi : opts.inputs = [path])
+    (hg : getOnlyDocument fs cwd path = .ok (data, f)) :
+    (∀ x, opts.format = some x →
+      bklrRun fs cwd opts =
+        if supportedExts.contains x then .ok { format := x, doc := required data }
+        else .error .unknownFormat) ∧
+    (∀ o, opts.format = none → opts.outPath = some o →
+      bklrRun fs cwd opts =
+        if supportedExts.contains (extOfPath o) then
+          .ok { format := extOfPath o, doc := required data }
+        else .error .unknownFormat) ∧
+    (opts.format = none → opts.outPath = none →
+      bklrRun fs cwd opts =
+        if supportedExts.contains f then .ok { format := f, doc := required data }
+        else .error .unknownFormat) := by
+  refine ⟨?_, ?_, ?_⟩
+  · intro x hx
+    rw [tc_bklrRun_one fs cwd opts path hi, hg]
+    simp only
+    rw [hx]
+    simp only
+    rw [tc_checkFormat_eq]
+    by_cases hc : supportedExts.contains x = true
+    · rw [if_pos hc, if_pos hc]
+    · rw [if_neg hc, if_neg hc]
+  · intro o hx ho
+    rw [tc_bklrRun_one fs cwd opts path hi, hg]
+    simp only
+    rw [hx, ho]
+    simp only
+    rw [tc_checkFormat_eq]
+    by_cases hc : supportedExts.contains (extOfPath o) = true
+    · rw [if_pos hc, if_pos hc]
+    · rw [if_neg hc, if_neg hc]
+  · intro hx ho
+    rw [tc_bklrRun_one fs cwd opts path hi, hg]
+    simp only
+    rw [hx, ho]
+    simp only
+    rw [tc_checkFormat_eq]
+    by_cases hc : supportedExts.contains f = true
+    · rw [if_pos hc, if_pos hc]
+    · rw [if_neg hc, if_neg hc]
+
+example : ({ inputs := ["r.yaml"] } : ToolOpts).inputs = ["r.yaml"] ∧
+    getOnlyDocument tc_toolFS ["w"] "r.yaml" = .ok (tc_req, "yaml") := ⟨rfl, tc_toolFS_get_r⟩
+
+/-- `bklr r.yaml`: the input's format -/
+theorem C17_bklr_sample :
+    bklrRun tc_toolFS ["w"] { inputs := ["r.yaml"] } =
+      .ok { format := "yaml",
+            doc := some (.map [("a", .str "$required"), ("c", .list [.str "$required"])]) } := by
+  rw [(C17_bklr_format_choice tc_toolFS ["w"] _ "r.yaml" tc_req "yaml" rfl tc_toolFS_get_r).2.2
+    rfl rfl]
+  rfl
+
+/-- `bklr -o out.toml r.yaml` → toml; `bklr -f json -o out.toml r.yaml` → json -/
+example : bklrRun tc_toolFS ["w"] { outPath := some "out.toml", inputs := ["r.yaml"] } =
+    .ok { format := "toml", doc := required tc_req } := by
+  rw [(C17_bklr_format_choice tc_toolFS ["w"] _ "r.yaml" tc_req "yaml" rfl tc_toolFS_get_r).2.1
+    "out.toml" rfl rfl, tc_ext_out_toml]
+  rfl
+
+example : bklrRun tc_toolFS ["w"]
+      { format := some "json", outPath := some "out.toml", inputs := ["r.yaml"] } =
+    .ok { format := "json", doc := required tc_req } := by
+  rw [(C17_bklr_format_choice tc_toolFS ["w"] _ "r.yaml" tc_req "yaml" rfl tc_toolFS_get_r).1
+    "json" rfl]
+  rfl
+
+/-- the difference to bkld/bkli: `-o out` (no extension) does not fall back to the input's
+    format — bklr fails, while `toolFormat` answers `yaml` -/
+theorem C17_bklr_format_differs :
+    bklrRun tc_toolFS ["w"] { outPath := some "out", inputs := ["r.yaml"] } =
+      .error .unknownFormat ∧
+    toolFormat { outPath := some "out", inputs := ["r.yaml"] } "yaml" = "yaml" ∧
+    bklrRun tc_toolFS ["w"] { format := some "", inputs := ["r.yaml"] } = .error .unknownFormat ∧
+    toolFormat { format := some "", inputs := ["r.yaml"] } "yaml" = "yaml" := by
+  refine ⟨?_, tc_toolFormat_fb _ _ (.inl rfl) (.inr ⟨"out", rfl, tc_ext_out⟩), ?_,
+    tc_toolFormat_fb _ _ (.inr rfl) (.inl rfl)⟩
+  · rw [(C17_bklr_format_choice tc_toolFS ["w"] _ "r.yaml" tc_req "yaml" rfl tc_toolFS_get_r).2.1
+      "out" rfl rfl, tc_ext_out]
+    rfl
+  · rw [(C17_bklr_format_choice tc_toolFS ["w"] _ "r.yaml" tc_req "yaml" rfl tc_toolFS_get_r).1
+      "" rfl]
+    rfl
+
+/-- bklr succeeds exactly when it has one input, the input yields exactly one merged document
+    (`getOnlyDocument`; the document is NOT evaluated), and the chosen format is supported; the
+    emitted document is `required` of that merged document. -/
+theorem C17_bklr_result_iff (fs : FS) (cwd : Comps) (opts : ToolOpts) (r : ToolResult) :
+    bklrRun fs cwd opts = .ok r ↔
+      ∃ path data f,
+        opts.inputs = [path] ∧ getOnlyDocument fs cwd path = .ok (data, f) ∧
+        (match opts.format with
+          | some x => x
+          | none => match opts.outPath with | some o => extOfPath o | none => f) ∈ supportedExts ∧
+        r = { format := (match opts.format with
+                | some x => x
+                | none => match opts.outPath with | some o => extOfPath o | none => f),
+              doc := required data } :=
+  tc_bklrRun_ok_iff fs cwd opts r
+
+/-- the forward direction, field by field; nothing is emitted iff the merged document carries
+    no `$required` marker (`C17_empty_iff`) -/
+theorem C17_bklr_result (fs : FS) (cwd : Comps) (opts : ToolOpts) (r : ToolResult)
+    (h : bklrRun fs cwd opts = .ok r) :
+    ∃ path data f,
+      opts.inputs = [path] ∧ getOnlyDocument fs cwd path = .ok (data, f) ∧
+      r.doc = required data ∧ (r.doc = none ↔ countReq data = 0) ∧
+      (∀ out, r.doc = some out → onlyMarkers out = true ∧ countReq out = countReq data) ∧
+      r.format = (match opts.format with
+        | some x => x
+        | none => match opts.outPath with | some o => extOfPath o | none => f) ∧
+      r.format ∈ supportedExts := by
+  obtain ⟨path, data, f, hi, hg, hmem, rfl⟩ := (C17_bklr_result_iff fs cwd opts r).1 h
+  exact ⟨path, data, f, hi, hg, rfl, C17_empty_iff data,
+    fun out ho => ⟨C17_only_markers data out ho, C17_count_some data out ho⟩, rfl, hmem⟩
+
+example : ∃ r, bklrRun tc_toolFS ["w"] { inputs := ["r.yaml"] } = .ok r := ⟨_, C17_bklr_sample⟩
+
+/-- a document without markers: bklr succeeds and emits nothing -/
+example : bklrRun tc_toolFS ["w"] { inputs := ["a.yaml"] } = .ok { format := "yaml", doc := none } := by
+  rw [(C17_bklr_format_choice tc_toolFS ["w"] _ "a.yaml" tc_base "yaml" rfl tc_toolFS_get_a).2.2
+    rfl rfl]
+  rfl
+
+/-- The merged document a tool works on never has a top-level `$parent` or `$match` key (both
+    are consumed by the loader / the parser), and neither has bklr's output.  This is what makes
+    the output readable back as a plain single-document file. -/
+theorem C17_bklr_output_no_directives (fs : FS) (cwd : Comps) (opts : ToolOpts) (r : ToolResult)
+    (out : Val) (h : bklrRun fs cwd opts = .ok r) (ho : r.doc = some out) :
+    ∀ m, out = .map m → fget m "$parent" = none ∧ fget m "$match" = none := by
+  obtain ⟨path, data, f, _, hg, hdoc, _⟩ := C17_bklr_result fs cwd opts r h
+  rw [hdoc] at ho
+  have hc := tc_required_clean (tc_getOnlyDocument_clean hg) ho
+  rintro m rfl
+  simpa [tc_clean, tc_noKey] using hc
+
+example : (∃ r, bklrRun tc_toolFS ["w"] { inputs := ["r.yaml"] } = .ok r ∧
+    r.doc = some (.map [("a", .str "$required"), ("c", .list [.str "$required"])])) :=
+  ⟨_, C17_bklr_sample, rfl⟩
+
+/-- Idempotence through the CLI.  Let bklr succeed and emit `out` in format `r.format`.  Store
+    the output as the only file `/w/out.<format>` of a file system (`tc_outFS`: the directory
+    /w and that one single-document file, no parents) and run `bklr out.<format>` in /w:
+    the result is the same document in the same format.  No hypothesis on the original input. -/
+theorem C17_bklr_cli_idempotent (fs : FS) (cwd : Comps) (opts : ToolOpts) (r : ToolResult)
+    (out : Val) (h : bklrRun fs cwd opts = .ok r) (ho : r.doc = some out) :
+    bklrRun (tc_outFS r.format out) ["w"] { inputs := ["out" ++ "." ++ r.format] } =
+      .ok { format := r.format, doc := some out } := by
+  obtain ⟨path, data, f, _, hg, hdoc, _, _, _, hmem⟩ := C17_bklr_result fs cwd opts r h
+  rw [hdoc] at ho
+  have hc := tc_required_clean (tc_getOnlyDocument_clean hg) ho
+  rw [C17_bklr_result_iff]
+  refine ⟨"out" ++ "." ++ r.format, out, r.format, rfl, tc_outFS_get r.format hmem out hc, hmem, ?_⟩
+  rw [C17_idempotent data out ho]
+
+example : (∃ r, bklrRun tc_toolFS ["w"] { inputs := ["r.yaml"] } = .ok r ∧
+    r.doc = some (.map [("a", .str "$required"), ("c", .list [.str "$required"])])) :=
+  ⟨_, C17_bklr_sample, rfl⟩
+
+/-- the instance for the sample: `bklr r.yaml > out.yaml; bklr out.yaml` -/
+example :
+    bklrRun (tc_outFS "yaml" (.map [("a", .str "$required"), ("c", .list [.str "$required"])]))
+      ["w"] { inputs := ["out" ++ "." ++ "yaml"] } =
+      .ok { format := "yaml",
+            doc := some (.map [("a", .str "$required"), ("c", .list [.str "$required"])]) } :=
+  C17_bklr_cli_idempotent tc_toolFS ["w"] { inputs := ["r.yaml"] }
+    { format := "yaml",
+      doc := some (.map [("a", .str "$required"), ("c", .list [.str "$required"])]) }
+    (.map [("a", .str "$required"), ("c", .list [.str "$required"])]) C17_bklr_sample rfl
 
 end Bkl
